@@ -6,6 +6,7 @@ package quic
 
 //@ func (s *baseServer) validateToken
 //@   props C14
+//@   nilable token
 //@   requires s.config != nil
 //@   ensures [nil-token] implies(token == nil, !result)
 //@   ensures [address] implies(result, token != nil && ufb("addrmatch", token, addr))
@@ -312,6 +313,8 @@ package quic
 //@   ensures [duplicate] implies(seq <= old(m.highestSeq) && !old(has(m.activeSrcConnIDs, seq)), result == nil && len(m.activeSrcConnIDs) == old(len(m.activeSrcConnIDs)) && m.highestSeq == old(m.highestSeq))
 //@   ensures [count-never-grows] len(m.activeSrcConnIDs) <= old(len(m.activeSrcConnIDs))
 //@   ensures [retired-gone] implies(result == nil && old(has(m.activeSrcConnIDs, seq)), !has(m.activeSrcConnIDs, seq))
+//@   ensures [every-retired-id-is-queued-for-removal] implies(old(has(m.activeSrcConnIDs, seq)) && !has(m.activeSrcConnIDs, seq), len(m.connIDsToRetire) == old(len(m.connIDsToRetire)) + 1)
+//@   ensures [rejected-retire-queues-nothing] implies(old(has(m.activeSrcConnIDs, seq)) == has(m.activeSrcConnIDs, seq) && seq <= old(m.highestSeq), len(m.connIDsToRetire) == old(len(m.connIDsToRetire)))
 //@   modifies m.activeSrcConnIDs[*], m.highestSeq, m.connIDsToRetire, m.connIDsToRetire[*]
 
 //@ extern slices.IndexFunc
@@ -651,6 +654,7 @@ package quic
 //@   fresh
 //@   modifies nothing
 //@ extern clienthellod.ReadAllFrames
+//@   ensures [fresh-list] cap(result0) == 0 || isfresh(result0)
 //@   modifies nothing
 
 //@ func validateInitialFlight
@@ -1102,3 +1106,384 @@ package quic
 //@              implies(client, cideq(params.OriginalDestinationConnectionID, c.origDestConnID) &&
 //@                              ite(c.retrySrcConnID != nil, params.RetrySourceConnectionID != nil && cideq(*params.RetrySourceConnectionID, *c.retrySrcConnID), params.RetrySourceConnectionID == nil)))
 //@   modifies nothing
+
+// ---------------- per-stream flow controller construction (C04, C12) ----------------
+// The SEND window of a new stream starts at the limit the PEER advertised for that kind of stream, seen from the peer's side
+// (RFC 9000 18.2): streams we opened are "remote" for the peer, streams it opened are "local"; unidirectional streams
+// have their own limit. The RECEIVE window is what this endpoint enforces (Config).
+//@ func (c *Conn) newFlowController
+//@   props C04 C12
+//@   requires id >= 0 && c.peerParams != nil && c.config != nil && c.rttStats != nil && c.connFlowController != nil
+//@   requires typeis(c.connFlowController, *flowcontrol.connectionFlowController) && dyn(c.connFlowController, *flowcontrol.connectionFlowController).cInv()
+//@   requires 0 <= c.peerParams.InitialMaxStreamDataUni && c.peerParams.InitialMaxStreamDataUni <= 4611686018427387903 && 0 <= c.peerParams.InitialMaxStreamDataBidiRemote && c.peerParams.InitialMaxStreamDataBidiRemote <= 4611686018427387903 && 0 <= c.peerParams.InitialMaxStreamDataBidiLocal && c.peerParams.InitialMaxStreamDataBidiLocal <= 4611686018427387903
+//@   requires c.config.InitialStreamReceiveWindow <= 4611686018427387903 && c.config.MaxStreamReceiveWindow <= 4611686018427387903
+//@   let r = dyn(result, *flowcontrol.streamFlowController)
+//@   let uni = id % 4 >= 2
+//@   let mine = ite(id % 2 == 0, protocol.PerspectiveClient, protocol.PerspectiveServer) == c.perspective
+//@   ensures [send-window-is-the-peers-limit-for-this-kind-of-stream] typeis(result, *flowcontrol.streamFlowController) && r.sendWindow == ite(uni, c.peerParams.InitialMaxStreamDataUni, ite(mine, c.peerParams.InitialMaxStreamDataBidiRemote, c.peerParams.InitialMaxStreamDataBidiLocal))
+//@   ensures [receive-window-is-the-configured-one] uint64(r.receiveWindow) == c.config.InitialStreamReceiveWindow && uint64(r.maxReceiveWindowSize) == c.config.MaxStreamReceiveWindow
+//@   ensures [nothing-sent-yet] r.bytesSent == 0
+//@   modifies nothing
+
+// ---------------- the transport-parameter ID list a spec reports (C11) ----------------
+// "The ID list the spec reports equals what a fingerprinter canonicalising the wire sees": one entry per parameter that
+// survives suppression (duplicates kept), every GREASE identifier — recognised by its NUMERIC value 31*N+27, whatever the
+// Go type of the parameter — folded to 27.
+//@ spec canonicalTPID(x uint64) bool = !(x >= 27 && (x - 27) % 31 == 0) || x == 27
+//@ extern slices.Sort
+//@   ensures [same-length] len(x) == old(len(x))
+//@   ensures [same-elements] forall(k, 0, len(x), exists(j, 0, len(x), x[k] == old(x[j])))
+//@   modifies x[*]
+//@ func (s *QUICSpec) TransportParameterIDs
+//@   props C11
+//@   requires s.ClientHelloSpec == nil || len(s.ClientHelloSpec.Extensions) <= 65536
+//@   requires len(s.SuppressTransportParameters) <= 65536
+//@   requires s.ClientHelloSpec == nil || forall(k, 0, len(s.ClientHelloSpec.Extensions), implies(typeis(s.ClientHelloSpec.Extensions[k], *tls.QUICTransportParametersExtension), len(dyn(s.ClientHelloSpec.Extensions[k], *tls.QUICTransportParametersExtension).TransportParameters) <= 65536))
+//@   ensures [no-spec-no-list] implies(s.ClientHelloSpec == nil, len(result) == 0)
+//@   ensures [grease-folded-by-numeric-id] forall(k, 0, len(result), canonicalTPID(result[k]))
+//@   modifies heap(tls.QUICTransportParametersExtension.TransportParameters), elems(tls.TransportParameter)
+//@ loop (s *QUICSpec) TransportParameterIDs #0
+//@   invariant 0 <= rangeidx && rangeidx <= len(s.ClientHelloSpec.Extensions)
+//@   modifies nothing
+//@ loop (s *QUICSpec) TransportParameterIDs #1
+//@   invariant 0 <= rangeidx && rangeidx <= len(qtp.TransportParameters) && len(ids) == rangeidx && isfresh(ids)
+//@   invariant forall(k, 0, len(ids), canonicalTPID(ids[k]))
+//@   modifies ids[*]
+
+// ---------------- API used by the HTTP/3 layer ----------------
+//@ func (s *ReceiveStream) StreamID
+//@   props C18
+//@   ensures result == s.streamID
+//@   modifies nothing
+//@ func (c *Conn) CloseWithError
+//@   trusted hands the close request to the connection's run loop (channels, context): outside the sequential subset; writes no stream or HTTP/3 state
+//@   modifies nothing
+
+// ---------------- re-framing one Initial packet through a per-datagram builder (C09: true offsets) ----------------
+// The slice handed to the builder is the reassembled CRYPTO data of this packet; the base offset handed with it must be
+// the absolute stream offset of that slice's first byte, i.e. the LOWEST offset among the packet's CRYPTO frames (the
+// retransmission queue does not keep them in ascending order), and 0 if there is none.
+//@ extern clienthellod.ReassembleCRYPTOFrames
+//@   modifies nothing
+//@ iface (fb quic.QUICFrameBuilder) Build
+//@   modifies nothing
+//@ iface (fb quic.QUICFrameBuilderEx) BuildForDatagram
+//@   modifies nothing
+//@ iface (fb quic.QUICFrameBuilderEx) Build
+//@   modifies nothing
+//@ func (qfs QUICFrames) Build
+//@   trusted serialises PADDING/PING/CRYPTO frames (byte output; covered by the bounded stand-in initial-framing)
+//@   modifies nothing
+//@ func (p *uPacketPacker) MarshalInitialPacketPayload
+//@   props C09
+//@   requires p.uSpec != nil && p.uSpec.InitialPacketSpec.FrameBuilder != nil && p.initialDatagramIdx >= 0 && p.initialDatagramIdx < 1000000
+//@   let base = callarg("(quic.QUICFrameBuilderEx).BuildForDatagram", 0, 3)
+//@   let viaEx = called("(quic.QUICFrameBuilderEx).BuildForDatagram") == 1
+//@   ensures [base-offset-not-above-any-crypto-frame] implies(viaEx, forall(k, 0, len(qchframes), implies(typeis(qchframes[k], *clienthellod.CRYPTO), base <= dyn(qchframes[k], *clienthellod.CRYPTO).Offset)))
+//@   ensures [base-offset-is-a-crypto-frame-offset-or-zero] implies(viaEx, base == 0 || exists(k, 0, len(qchframes), typeis(qchframes[k], *clienthellod.CRYPTO) && base == dyn(qchframes[k], *clienthellod.CRYPTO).Offset))
+//@   ensures [one-datagram-per-call] implies(viaEx, p.initialDatagramIdx == old(p.initialDatagramIdx) + 1 && callarg("(quic.QUICFrameBuilderEx).BuildForDatagram", 0, 1) == old(p.initialDatagramIdx))
+//@   ensures [after-the-flight-frames-pass-through] implies(old(p.flightPlanned), called("(quic.QUICFrameBuilderEx).BuildForDatagram") == 0 && called("(quic.QUICFrameBuilder).Build") == 0 && p.initialDatagramIdx == old(p.initialDatagramIdx))
+//@   modifies p.initialDatagramIdx, elems(uint8), elems(clienthellod.QUICFrame), elems(QUICFrame)
+//@ loop (p *uPacketPacker) MarshalInitialPacketPayload #0
+//@   modifies elems(uint8)
+//@ loop (p *uPacketPacker) MarshalInitialPacketPayload #1
+//@   modifies elems(uint8)
+//@ loop (p *uPacketPacker) MarshalInitialPacketPayload #2
+//@   invariant 0 <= rangeidx && rangeidx <= len(qchframes)
+//@   invariant forall(k, 0, rangeidx, implies(typeis(qchframes[k], *clienthellod.CRYPTO), baseOffset <= dyn(qchframes[k], *clienthellod.CRYPTO).Offset))
+//@   invariant baseOffset == 18446744073709551615 || exists(k, 0, rangeidx, typeis(qchframes[k], *clienthellod.CRYPTO) && baseOffset == dyn(qchframes[k], *clienthellod.CRYPTO).Offset)
+//@   modifies nothing
+//@ loop (p *uPacketPacker) MarshalInitialPacketPayload #3
+//@   modifies elems(QUICFrame)
+
+// ---------------- the first AUTHENTICATED long-header packet fixes the peer's connection ID (C13) ----------------
+// A server creates the connection from the header of the first Initial it sees, before that packet is authenticated; a
+// forged first Initial may therefore have planted a wrong source connection ID. Whatever was recorded, the first packet
+// that passes AEAD authentication (this function is only reached after unpacking succeeded) makes the peer's connection ID
+// the one in ITS header — on the client (the server may pick a new ID) and on the server alike; later packets never change it.
+//@ func (c *Conn) dropEncryptionLevel
+//@   trusted drops one packet number space in both handlers, the crypto stream and the keys; touches none of the connection-ID fields
+//@   modifies c.droppedInitialKeys
+//@ func startedConnectionEvent
+//@   trusted qlog only
+//@   modifies nothing
+//@ func (c *Conn) handleFrames
+//@   trusted the frame loop of the connection (dispatches every frame type); examined here only up to this call
+//@   modifies everything
+//@ iface (c quic.sendConn) LocalAddr
+//@   modifies nothing
+//@ iface (c quic.sendConn) RemoteAddr
+//@   modifies nothing
+//@ func (c *Conn) handleUnpackedLongHeaderPacket
+//@   props C13
+//@   opt cutbefore (*Conn).handleFrames
+//@   opt prune yes
+//@   requires packet != nil && packet.hdr != nil && c.connIDManager != nil && c.config != nil && c.conn != nil
+//@   requires implies(!c.receivedFirstPacket, c.connIDManager.activeSequenceNumber == 0) && (c.perspective == protocol.PerspectiveClient || c.perspective == protocol.PerspectiveServer)
+//@   let first = !old(c.receivedFirstPacket)
+//@   let same = c.handshakeDestConnID.l == packet.hdr.SrcConnectionID.l && forall(k, 0, 20, c.handshakeDestConnID.b[k] == packet.hdr.SrcConnectionID.b[k])
+//@   let sameBefore = old(c.handshakeDestConnID.l) == packet.hdr.SrcConnectionID.l && forall(k, 0, 20, old(c.handshakeDestConnID.b[k]) == packet.hdr.SrcConnectionID.b[k])
+//@   ensures [first-authenticated-packet-fixes-the-peers-connection-id] implies(first, same)
+//@   ensures [connection-id-manager-follows] implies(first, called("(*connIDManager).ChangeInitialConnID") == ite(sameBefore, 0, 1))
+//@   ensures [later-packets-never-change-it] implies(!first, c.handshakeDestConnID.l == old(c.handshakeDestConnID.l) && forall(k, 0, 20, c.handshakeDestConnID.b[k] == old(c.handshakeDestConnID.b[k])) && called("(*connIDManager).ChangeInitialConnID") == 0)
+//@   ensures [marked] c.receivedFirstPacket
+//@   ensures [server-drops-initial-keys-on-first-handshake-packet] implies(c.perspective == protocol.PerspectiveServer && packet.encryptionLevel == protocol.EncryptionHandshake && !old(c.droppedInitialKeys), called("(*Conn).dropEncryptionLevel") == 1)
+//@   modifies everything
+
+// ---------------- issuing connection IDs up to the peer's limit (C16, first clause) ----------------
+// "never has more unretired connection IDs issued than the peer's active_connection_id_limit allows": the generator tops the
+// active set up to min(limit, 6) and never beyond; an endpoint that uses zero-length connection IDs issues none.
+//@ iface (g quic.ConnectionIDGenerator) ConnectionIDLen
+//@   modifies nothing
+//@ func (m *connIDGenerator) SetMaxActiveConnIDs
+//@   props C16
+//@   requires m.generator != nil && m.activeSrcConnIDs != nil && m.statelessResetter != nil && m.highestSeq < 4611686018427387000 && forall(k, uint64, implies(k > m.highestSeq, !has(m.activeSrcConnIDs, k)))
+//@   let bound = min(limit, 6)
+//@   let n0 = old(len(m.activeSrcConnIDs))
+//@   ensures [never-above-the-peers-limit] len(m.activeSrcConnIDs) <= max(n0, bound)
+//@   ensures [topped-up] implies(result == nil && lastresult("(quic.ConnectionIDGenerator).ConnectionIDLen") != 0, len(m.activeSrcConnIDs) == max(n0, bound))
+//@   ensures [zero-length-ids-issue-nothing] implies(lastresult("(quic.ConnectionIDGenerator).ConnectionIDLen") == 0, result == nil && len(m.activeSrcConnIDs) == n0 && called("(*connIDGenerator).issueNewConnID") == 0)
+//@   ensures [never-shrinks] len(m.activeSrcConnIDs) >= n0
+//@   modifies m.activeSrcConnIDs[*], m.highestSeq
+//@ loop (m *connIDGenerator) SetMaxActiveConnIDs #0
+//@   invariant i == len(m.activeSrcConnIDs) && n0 <= i && i <= max(n0, bound) && m.highestSeq < 4611686018427387000 + i
+//@   invariant forall(k, uint64, implies(k > m.highestSeq, !has(m.activeSrcConnIDs, k)))
+//@   modifies m.activeSrcConnIDs[*], m.highestSeq
+
+// ---------------- taking connection IDs out of the routing table (C16: "after the connection closes, every ID is removed") ----------------
+//@ func (cr connRunners) ReplaceWithClosed
+//@   trusted iterates the registered transports' callbacks (function values); does not touch generator state
+//@   modifies nothing
+// RemoveAll: one removal per ID the generator knows — the client's initial destination ID (while still remembered), every
+// active ID and every ID still waiting for its retirement timer.
+//@ func (m *connIDGenerator) RemoveAll
+//@   props C16
+//@   requires m.activeSrcConnIDs != nil
+//@   ensures [every-known-id-removed-once] called("(connRunners).RemoveConnectionID") == ite(m.initialClientDestConnID != nil, 1, 0) + len(m.activeSrcConnIDs) + len(m.connIDsToRetire)
+//@   modifies nothing
+//@ loop (m *connIDGenerator) RemoveAll #0
+//@   invariant called("(connRunners).RemoveConnectionID") == ite(m.initialClientDestConnID != nil, 1, 0) + visitedcount
+//@   modifies nothing
+//@ loop (m *connIDGenerator) RemoveAll #1
+//@   invariant 0 <= rangeidx && rangeidx <= len(m.connIDsToRetire) && called("(connRunners).RemoveConnectionID") == ite(m.initialClientDestConnID != nil, 1, 0) + len(m.activeSrcConnIDs) + rangeidx
+//@   modifies nothing
+// ReplaceWithClosed: the same set of IDs is handed over to the closed-connection stand-in, in one call.
+//@ func (m *connIDGenerator) ReplaceWithClosed
+//@   props C16
+//@   requires m.activeSrcConnIDs != nil && len(m.connIDsToRetire) <= 1000000 && len(m.activeSrcConnIDs) <= 1000000
+//@   ensures [every-known-id-handed-over] called("(connRunners).ReplaceWithClosed") == 1 && len(callarg("(connRunners).ReplaceWithClosed", 0, 1)) == ite(m.initialClientDestConnID != nil, 1, 0) + len(m.activeSrcConnIDs) + len(m.connIDsToRetire)
+//@   modifies nothing
+//@ loop (m *connIDGenerator) ReplaceWithClosed #0
+//@   invariant len(connIDs) == ite(m.initialClientDestConnID != nil, 1, 0) + visitedcount && isfresh(connIDs)
+//@   modifies connIDs[*]
+//@ loop (m *connIDGenerator) ReplaceWithClosed #1
+//@   invariant 0 <= rangeidx && rangeidx <= len(m.connIDsToRetire) && len(connIDs) == ite(m.initialClientDestConnID != nil, 1, 0) + len(m.activeSrcConnIDs) + rangeidx && isfresh(connIDs)
+//@   modifies connIDs[*]
+// RemoveRetiredConnIDs: exactly the expired prefix of the (time-ordered) retirement queue is removed from routing and
+// dropped from the queue; nothing that has not expired is touched.
+//@ func (m *connIDGenerator) RemoveRetiredConnIDs
+//@   props C16
+//@   requires 0 <= now && now <= 4611686018427387903
+//@   let removed = called("(connRunners).RemoveConnectionID")
+//@   ensures [queue-shrinks-by-what-was-removed] len(m.connIDsToRetire) == old(len(m.connIDsToRetire)) - removed && 0 <= removed
+//@   ensures [queue-is-a-suffix] samebacking(m.connIDsToRetire, old(m.connIDsToRetire)) || removed == 0
+//@   ensures [only-expired-entries-removed] forall(k, 0, removed, old(m.connIDsToRetire[k].t) <= now)
+//@   ensures [stops-at-first-unexpired] implies(len(m.connIDsToRetire) > 0, m.connIDsToRetire[0].t > now)
+//@   modifies m.connIDsToRetire
+//@ loop (m *connIDGenerator) RemoveRetiredConnIDs #0
+//@   invariant 0 <= rangeidx && rangeidx <= old(len(m.connIDsToRetire)) && called("(connRunners).RemoveConnectionID") == rangeidx
+//@   invariant len(m.connIDsToRetire) == old(len(m.connIDsToRetire)) - rangeidx && alias(m.connIDsToRetire, old(m.connIDsToRetire), rangeidx)
+//@   invariant forall(k, 0, rangeidx, old(m.connIDsToRetire[k].t) <= now)
+//@   modifies m.connIDsToRetire
+
+// ---------------- peer connection IDs used for path probing (C16) ----------------
+// A connection ID handed out for probing a path gets its stateless-reset token registered exactly once, and once the path
+// is given up the ID is reported with RETIRE_CONNECTION_ID and its token unregistered — exactly once each.
+//@ func (h *connIDManager) GetConnIDForPath
+//@   props C16
+//@   requires !h.closed
+//@   let zero = old(h.activeConnectionID.l) == 0
+//@   let known = !zero && old(h.pathProbing != nil && has(h.pathProbing, id))
+//@   let fresh = !zero && !known && old(len(h.queue)) > 0
+//@   ensures [zero-length-ids-need-none] implies(zero, result1 && result0.l == 0 && called("field:addStatelessResetToken") == 0 && len(h.queue) == old(len(h.queue)))
+//@   ensures [same-path-same-id] implies(known, result1 && called("field:addStatelessResetToken") == 0 && len(h.queue) == old(len(h.queue)))
+//@   ensures [none-available] implies(!zero && !known && old(len(h.queue)) == 0, !result1 && called("field:addStatelessResetToken") == 0)
+//@   ensures [new-id-taken-from-the-queue-and-its-token-registered-once] implies(fresh, result1 && len(h.queue) == old(len(h.queue)) - 1 && called("field:addStatelessResetToken") == 1 && has(h.pathProbing, id) && h.highestProbingID == old(h.queue[0].SequenceNumber) && result0.l == old(h.queue[0].ConnectionID.l))
+//@   modifies h.pathProbing, h.pathProbing[*], h.queue, h.highestProbingID
+//@ func (h *connIDManager) RetireConnIDForPath
+//@   props C16
+//@   requires !h.closed
+//@   let zero = old(h.activeConnectionID.l) == 0
+//@   let known = !zero && old(h.pathProbing != nil && has(h.pathProbing, pathID))
+//@   ensures [retired-once-and-token-unregistered-once] implies(known, called("field:queueControlFrame") == 1 && called("field:removeStatelessResetToken") == 1 && !has(h.pathProbing, pathID))
+//@   ensures [unknown-path-noop] implies(!known, called("field:queueControlFrame") == 0 && called("field:removeStatelessResetToken") == 0)
+//@   modifies h.pathProbing[*]
+
+// ---------------- frames that name a stream: the stream ID is checked before anything reaches a stream (C15) ----------------
+//@ iface (h quic.receiveStreamFrameHandler) handleStreamFrame
+//@   modifies everything
+//@ iface (h quic.receiveStreamFrameHandler) handleResetStreamFrame
+//@   modifies everything
+//@ iface (h quic.sendStreamFrameHandler) updateSendWindow
+//@   modifies everything
+//@ iface (h quic.sendStreamFrameHandler) handleStopSendingFrame
+//@   modifies everything
+//@ func (m *streamsMap) HandleStreamFrame
+//@   props C15
+//@   requires m.smInv() && 0 <= f.StreamID && f.StreamID <= 4611686018427387903
+//@   let id = old(f.StreamID)
+//@   let mine = ite(id % 2 == 0, protocol.PerspectiveClient, protocol.PerspectiveServer) == old(m.perspective)
+//@   let delivered = called("(quic.receiveStreamFrameHandler).handleStreamFrame")
+//@   ensures [own-send-only-stream] implies(id % 4 >= 2 && mine, iserr(result, qerr.StreamStateError) && delivered == 0)
+//@   ensures [never-opened-local-stream] implies(mine && id % 4 < 2 && id >= old(m.outgoingBidiStreams.nextStream), iserr(result, qerr.StreamStateError) && delivered == 0)
+//@   ensures [beyond-the-advertised-limit] implies(!mine && id > ite(id % 4 >= 2, old(m.incomingUniStreams.maxStream), old(m.incomingBidiStreams.maxStream)), iserr(result, qerr.StreamLimitError) && delivered == 0)
+//@   ensures [delivered-at-most-once] delivered <= 1
+//@   modifies everything
+//@ func (m *streamsMap) HandleResetStreamFrame
+//@   props C15
+//@   requires m.smInv() && 0 <= f.StreamID && f.StreamID <= 4611686018427387903
+//@   let id = old(f.StreamID)
+//@   let mine = ite(id % 2 == 0, protocol.PerspectiveClient, protocol.PerspectiveServer) == old(m.perspective)
+//@   let delivered = called("(quic.receiveStreamFrameHandler).handleResetStreamFrame")
+//@   ensures [own-send-only-stream] implies(id % 4 >= 2 && mine, iserr(result, qerr.StreamStateError) && delivered == 0)
+//@   ensures [never-opened-local-stream] implies(mine && id % 4 < 2 && id >= old(m.outgoingBidiStreams.nextStream), iserr(result, qerr.StreamStateError) && delivered == 0)
+//@   ensures [beyond-the-advertised-limit] implies(!mine && id > ite(id % 4 >= 2, old(m.incomingUniStreams.maxStream), old(m.incomingBidiStreams.maxStream)), iserr(result, qerr.StreamLimitError) && delivered == 0)
+//@   modifies everything
+//@ func (m *streamsMap) HandleStreamDataBlockedFrame
+//@   props C15
+//@   requires m.smInv() && 0 <= f.StreamID && f.StreamID <= 4611686018427387903
+//@   let id = old(f.StreamID)
+//@   let mine = ite(id % 2 == 0, protocol.PerspectiveClient, protocol.PerspectiveServer) == old(m.perspective)
+//@   ensures [own-send-only-stream] implies(id % 4 >= 2 && mine, iserr(result, qerr.StreamStateError))
+//@   ensures [never-opened-local-stream] implies(mine && id % 4 < 2 && id >= old(m.outgoingBidiStreams.nextStream), iserr(result, qerr.StreamStateError))
+//@   modifies m.incomingBidiStreams.streams[*], m.incomingBidiStreams.nextStreamToOpen, m.incomingUniStreams.streams[*], m.incomingUniStreams.nextStreamToOpen
+//@ func (m *streamsMap) HandleMaxStreamDataFrame
+//@   props C15
+//@   requires m.smInv() && 0 <= f.StreamID && f.StreamID <= 4611686018427387903
+//@   let id = old(f.StreamID)
+//@   let mine = ite(id % 2 == 0, protocol.PerspectiveClient, protocol.PerspectiveServer) == old(m.perspective)
+//@   let delivered = called("(quic.sendStreamFrameHandler).updateSendWindow")
+//@   ensures [peers-send-only-stream] implies(id % 4 >= 2 && !mine, iserr(result, qerr.StreamStateError) && delivered == 0)
+//@   ensures [never-opened-local-stream] implies(mine && id >= ite(id % 4 >= 2, old(m.outgoingUniStreams.nextStream), old(m.outgoingBidiStreams.nextStream)), iserr(result, qerr.StreamStateError) && delivered == 0)
+//@   modifies everything
+//@ func (m *streamsMap) HandleStopSendingFrame
+//@   props C15
+//@   requires m.smInv() && 0 <= f.StreamID && f.StreamID <= 4611686018427387903
+//@   let id = old(f.StreamID)
+//@   let mine = ite(id % 2 == 0, protocol.PerspectiveClient, protocol.PerspectiveServer) == old(m.perspective)
+//@   let delivered = called("(quic.sendStreamFrameHandler).handleStopSendingFrame")
+//@   ensures [peers-send-only-stream] implies(id % 4 >= 2 && !mine, iserr(result, qerr.StreamStateError) && delivered == 0)
+//@   ensures [never-opened-local-stream] implies(mine && id >= ite(id % 4 >= 2, old(m.outgoingUniStreams.nextStream), old(m.outgoingBidiStreams.nextStream)), iserr(result, qerr.StreamStateError) && delivered == 0)
+//@   modifies everything
+
+// ---------------- MAX_STREAM_DATA reaches the stream's flow controller (C04: reordered or duplicate frames are harmless) ----------------
+//@ func (s *SendStream) updateSendWindow
+//@   props C04
+//@   let fc = dyn(s.flowController, *flowcontrol.streamFlowController)
+//@   requires s.flowController != nil && typeis(s.flowController, *flowcontrol.streamFlowController) && fc.sInv() && 0 <= limit && limit <= 4611686018427387903 && s.sender != nil
+//@   ensures [window-only-grows] fc.sendWindow == max(old(fc.sendWindow), limit)
+//@   ensures [stale-limit-wakes-nobody] implies(limit <= old(fc.sendWindow), called("(quic.streamSender).onHasStreamData") == 0)
+//@   ensures [raised-limit-wakes-a-stream-with-data] implies(limit > old(fc.sendWindow), called("(quic.streamSender).onHasStreamData") == ite(s.dataForWriting != nil || s.nextFrame != nil, 1, 0))
+//@   modifies fc.sendWindow
+
+// ---------------- removing header protection before the AEAD sees the packet (C05) ----------------
+// RFC 9001 5.4.2: the sample is the 16 bytes starting 4 bytes after the start of the packet number field; the mask is
+// applied to the first byte and to 4 packet-number bytes; once the real packet-number length is known, the bytes that were
+// unmasked although they belong to the payload are put back EXACTLY as received, because the AEAD authenticates them.
+//@ iface (hd quic.headerDecryptor) DecryptHeader
+//@   modifies *firstByte, pnBytes[:len(pnBytes)]
+//@ func (u *packetUnpacker) unpackShortHeader
+//@   props C05
+//@   arith bv
+//@   requires 0 <= u.shortHdrConnIDLen && u.shortHdrConnIDLen <= 20 && len(data) <= 1099511627776 && hd != nil
+//@   let hl = 1 + u.shortHdrConnIDLen
+//@   ensures [too-short-for-a-sample] implies(len(data) < hl + 20, result4 != nil && called("(quic.headerDecryptor).DecryptHeader") == 0)
+//@   ensures [sample-is-16-bytes-4-after-the-packet-number-start] implies(len(data) >= hl + 20, called("(quic.headerDecryptor).DecryptHeader") == 1 && alias(callarg("(quic.headerDecryptor).DecryptHeader", 0, 1), data, hl + 4) && len(callarg("(quic.headerDecryptor).DecryptHeader", 0, 1)) == 16 && alias(callarg("(quic.headerDecryptor).DecryptHeader", 0, 3), data, hl) && len(callarg("(quic.headerDecryptor).DecryptHeader", 0, 3)) == 4)
+//@   ensures [payload-bytes-restored] implies(len(data) >= hl + 20 && result4 == nil, forall(k, hl + int(result2), hl + 4, data[k] == old(data[k])))
+//@   ensures [beyond-the-packet-number-field-untouched] forall(k, hl + 4, len(data), data[k] == old(data[k]))
+//@   unclaimed safe:slice:5 on the ErrInvalidReservedBits path the packet-number length is valid only because that particular error is returned together with a parsed header; the identity of package-level error variables is not modelled
+//@   modifies data[:]
+//@ func unpackLongHeader
+//@   props C05
+//@   arith bv
+//@   requires hdr != nil && 0 <= hdr.parsedLen && hdr.parsedLen <= 1048576 && len(data) <= 1099511627776 && hd != nil
+//@   let hl = int(hdr.parsedLen)
+//@   ensures [too-short-for-a-sample] implies(len(data) < hl + 20, result1 != nil && result0 == nil && called("(quic.headerDecryptor).DecryptHeader") == 0)
+//@   ensures [sample-is-16-bytes-4-after-the-packet-number-start] implies(len(data) >= hl + 20, called("(quic.headerDecryptor).DecryptHeader") == 1 && alias(callarg("(quic.headerDecryptor).DecryptHeader", 0, 1), data, hl + 4) && len(callarg("(quic.headerDecryptor).DecryptHeader", 0, 1)) == 16 && alias(callarg("(quic.headerDecryptor).DecryptHeader", 0, 3), data, hl) && len(callarg("(quic.headerDecryptor).DecryptHeader", 0, 3)) == 4)
+//@   ensures [payload-bytes-restored] implies(result0 != nil, forall(k, hl + int(result0.PacketNumberLen), hl + 4, data[k] == old(data[k])))
+//@   ensures [beyond-the-packet-number-field-untouched] forall(k, hl + 4, len(data), data[k] == old(data[k]))
+//@   ensures [header-or-error] implies(result0 == nil, result1 != nil)
+//@   ensures [parsed-length] implies(result0 != nil, 1 <= result0.PacketNumberLen && result0.PacketNumberLen <= 4 && result0.parsedLen == hdr.parsedLen + int64(result0.PacketNumberLen) && result0.parsedLen <= len(data))
+//@   modifies data[:]
+
+// ---------------- unpacking: the AEAD decides, and it sees exactly header || rest (C05) ----------------
+//@ iface (o handshake.LongHeaderOpener) DecodePacketNumber
+//@   modifies nothing
+//@ iface (o handshake.LongHeaderOpener) Open
+//@   modifies dst[:]
+//@ iface (o handshake.LongHeaderOpener) DecryptHeader
+//@   modifies *firstByte, pnBytes[:len(pnBytes)]
+//@ iface (o handshake.ShortHeaderOpener) DecodePacketNumber
+//@   modifies nothing
+//@ iface (o handshake.ShortHeaderOpener) Open
+//@   modifies dst[:]
+//@ iface (o handshake.ShortHeaderOpener) DecryptHeader
+//@   modifies *firstByte, pnBytes[:len(pnBytes)]
+//@ func (u *packetUnpacker) unpackLongHeader
+//@   props C05
+//@   requires hdr != nil && 0 <= hdr.parsedLen && hdr.parsedLen <= 1048576 && len(data) <= 1099511627776 && hd != nil
+//@   ensures [header-or-error] implies(result0 == nil, result1 != nil)
+//@   ensures [parsed-length] implies(result0 != nil, 1 <= result0.PacketNumberLen && result0.PacketNumberLen <= 4 && result0.parsedLen == hdr.parsedLen + int64(result0.PacketNumberLen) && result0.parsedLen <= len(data))
+//@   modifies data[:]
+//@ func (u *packetUnpacker) unpackLongHeaderPacket
+//@   props C05
+//@   requires hdr != nil && 0 <= hdr.parsedLen && hdr.parsedLen <= 1048576 && len(data) <= 1099511627776 && opener != nil
+//@   let opened = called("(handshake.LongHeaderOpener).Open") == 1
+//@   let hl = lastresult("(*ExtendedHeader).ParsedLen")
+//@   ensures [unparsable-header-never-reaches-the-aead] implies(lastresult("(*packetUnpacker).unpackLongHeader", 0) == nil, result0 == nil && len(result1) == 0 && result2 != nil && called("(handshake.LongHeaderOpener).Open") == 0)
+//@   ensures [aead-gets-header-as-associated-data-and-the-rest-as-ciphertext] implies(opened, alias(callarg("(handshake.LongHeaderOpener).Open", 0, 4), data, 0) && len(callarg("(handshake.LongHeaderOpener).Open", 0, 4)) == hl && alias(callarg("(handshake.LongHeaderOpener).Open", 0, 2), data, hl) && len(callarg("(handshake.LongHeaderOpener).Open", 0, 2)) == len(data) - hl && alias(callarg("(handshake.LongHeaderOpener).Open", 0, 1), data, hl))
+//@   ensures [packet-number-decoded-by-the-opener] implies(opened, called("(handshake.LongHeaderOpener).DecodePacketNumber") == 1 && callarg("(handshake.LongHeaderOpener).Open", 0, 3) == lastresult("(handshake.LongHeaderOpener).DecodePacketNumber"))
+//@   ensures [authentication-failure-returns-nothing] implies(opened && lastresult("(handshake.LongHeaderOpener).Open", 1) != nil, result0 == nil && len(result1) == 0 && result2 != nil)
+//@   ensures [nothing-without-the-aead] implies(result2 == nil, opened && lastresult("(handshake.LongHeaderOpener).Open", 1) == nil && result0 != nil)
+//@   modifies data[:], heap(wire.ExtendedHeader.PacketNumber)
+//@ iface (cs handshake.CryptoSetup) GetInitialOpener
+//@   ensures [opener-or-error] implies(result1 == nil, result0 != nil)
+//@   modifies nothing
+//@ iface (cs handshake.CryptoSetup) GetHandshakeOpener
+//@   ensures [opener-or-error] implies(result1 == nil, result0 != nil)
+//@   modifies nothing
+//@ iface (cs handshake.CryptoSetup) Get0RTTOpener
+//@   ensures [opener-or-error] implies(result1 == nil, result0 != nil)
+//@   modifies nothing
+//@ iface (cs handshake.CryptoSetup) Get1RTTOpener
+//@   ensures [opener-or-error] implies(result1 == nil, result0 != nil)
+//@   modifies nothing
+//@ func (u *packetUnpacker) UnpackLongHeader
+//@   props C05
+//@   requires hdr != nil && 0 <= hdr.parsedLen && hdr.parsedLen <= 1048576 && len(data) <= 1099511627776 && u.cs != nil
+//@   ensures [keys-of-the-packets-own-level] implies(result1 == nil, result0 != nil && result0.encryptionLevel == ite(hdr.Type == protocol.PacketTypeInitial, protocol.EncryptionInitial, ite(hdr.Type == protocol.PacketTypeHandshake, protocol.EncryptionHandshake, protocol.Encryption0RTT)) && called("(*packetUnpacker).unpackLongHeaderPacket") == 1)
+//@   ensures [only-initial-handshake-0rtt] implies(hdr.Type != protocol.PacketTypeInitial && hdr.Type != protocol.PacketTypeHandshake && hdr.Type != protocol.PacketType0RTT, result1 != nil && result0 == nil && called("(*packetUnpacker).unpackLongHeaderPacket") == 0)
+//@   ensures [opener-of-the-right-level] called("(handshake.CryptoSetup).GetInitialOpener") == ite(hdr.Type == protocol.PacketTypeInitial, 1, 0) && called("(handshake.CryptoSetup).GetHandshakeOpener") == ite(hdr.Type == protocol.PacketTypeHandshake, 1, 0) && called("(handshake.CryptoSetup).Get0RTTOpener") == ite(hdr.Type == protocol.PacketType0RTT, 1, 0)
+//@   ensures [empty-packet-is-a-protocol-violation] implies(result1 == nil, len(result0.data) > 0)
+//@   ensures [no-packet-on-error] implies(result1 != nil, result0 == nil)
+//@   modifies data[:], heap(wire.ExtendedHeader.PacketNumber)
+//@ func (u *packetUnpacker) unpackShortHeaderPacket
+//@   props C05
+//@   requires 0 <= u.shortHdrConnIDLen && u.shortHdrConnIDLen <= 20 && len(data) <= 1099511627776 && opener != nil
+//@   let opened = called("(handshake.ShortHeaderOpener).Open") == 1
+//@   let hl = lastresult("(*packetUnpacker).unpackShortHeader", 0)
+//@   ensures [aead-gets-header-as-associated-data-and-the-rest-as-ciphertext] implies(opened, alias(callarg("(handshake.ShortHeaderOpener).Open", 0, 6), data, 0) && len(callarg("(handshake.ShortHeaderOpener).Open", 0, 6)) == hl && alias(callarg("(handshake.ShortHeaderOpener).Open", 0, 2), data, hl) && len(callarg("(handshake.ShortHeaderOpener).Open", 0, 2)) == len(data) - hl)
+//@   ensures [packet-number-decoded-by-the-opener] implies(opened, called("(handshake.ShortHeaderOpener).DecodePacketNumber") == 1 && callarg("(handshake.ShortHeaderOpener).Open", 0, 4) == lastresult("(handshake.ShortHeaderOpener).DecodePacketNumber"))
+//@   ensures [authentication-failure-returns-nothing] implies(opened && lastresult("(handshake.ShortHeaderOpener).Open", 1) != nil, len(result3) == 0 && result4 != nil)
+//@   ensures [nothing-without-the-aead] implies(result4 == nil, opened && lastresult("(handshake.ShortHeaderOpener).Open", 1) == nil)
+//@   unclaimed safe:slice:0 on the ErrInvalidReservedBits path the header length is valid only because that particular error is returned together with a parsed header; the identity of package-level error variables is not modelled
+//@   unclaimed safe:slice:1 same
+//@   unclaimed safe:slice:2 same
+//@   modifies data[:]
+//@ func (u *packetUnpacker) UnpackShortHeader
+//@   props C05
+//@   requires 0 <= u.shortHdrConnIDLen && u.shortHdrConnIDLen <= 20 && len(data) <= 1099511627776 && u.cs != nil
+//@   ensures [one-rtt-keys] called("(handshake.CryptoSetup).Get1RTTOpener") == 1
+//@   ensures [empty-packet-is-a-protocol-violation] implies(result4 == nil, len(result3) > 0)
+//@   ensures [nothing-on-error] implies(result4 != nil, result0 == 0 && result1 == 0 && result2 == 0 && len(result3) == 0)
+//@   modifies data[:]
